@@ -652,11 +652,33 @@ def stream_function(ctx, model):
         ctx.case({"tag": "function", "k": k, "index": idx, "cplx": cplx, "conjugate": conjugate, "include_eval": inc},
                  ("function", k, idx, cplx, conjugate, inc, tuple(ns), m))
         ctx.count(f"function:arity={k}:index={idx}")
+
+        def forc(c, Fn=Fn, X=X, V=V, W=W, idx=idx):
+            """jvp in slot idx = finite difference of the function in that slot; value = F(*args);
+            vjp(conjugate=True) adjoint to it"""
+            h = 2.0**-10
+            Xp = list(X)
+            Xm = list(X)
+            Xp[idx] = X[idx] + h * V
+            Xm[idx] = X[idx] - h * V
+            fd = (np.asarray(Fn(*Xp)) - np.asarray(Fn(*Xm))) / (2 * h)
+            val, jv = Fn.jvp(idx, V, *X)
+            if not np.allclose(np.asarray(val), np.asarray(Fn(*X)), rtol=1e-9, atol=1e-9):
+                return {"index": idx, "jvp_value": G.enc(np.asarray(val)), "F(*args)": G.enc(np.asarray(Fn(*X)))}
+            if np.asarray(jv).shape != fd.shape or not np.allclose(np.asarray(jv), fd, rtol=1e-5, atol=1e-5):
+                return {"index": idx, "jvp": G.enc(np.asarray(jv)), "finite_difference_in_slot": G.enc(fd)}
+            gw = np.asarray(Fn.vjp(idx, *X, conjugate=True)[1](W))
+            lhs = float(np.real(np.sum(np.conj(np.asarray(W)) * fd)))
+            rhs = float(np.real(np.sum(np.conj(gw) * np.asarray(V)))) if gw.shape == np.asarray(V).shape else float("nan")
+            if not abs(lhs - rhs) <= 1e-5 * (1 + abs(lhs)):
+                return {"index": idx, "Re<w,J v>": lhs, "Re<vjp(w),v>": rhs}
+            return None
+
         Fu, Jv = Fn.jvp(idx, V, *X)
-        ok = _cmp_vec(ctx, "function.jvp.value", case, Fu, G.from_cv(G.cv(Fu_np)))
-        ok = ok and _cmp_vec(ctx, "function.jvp", case, Jv, G.from_cv(got["jvp"]))
+        ok = _cmp_vec(ctx, "function.jvp.value", case, Fu, G.from_cv(G.cv(Fu_np)), forc)
+        ok = ok and _cmp_vec(ctx, "function.jvp", case, Jv, G.from_cv(got["jvp"]), forc)
         Fu2, Gmap = Fn.vjp(idx, *X, conjugate=conjugate)
-        ok = ok and _cmp_vec(ctx, "function.vjp", case, Gmap(W), G.from_cv(got["vjp"]))
+        ok = ok and _cmp_vec(ctx, "function.vjp", case, Gmap(W), G.from_cv(got["vjp"]), forc)
         J = Fn.jacobian(idx, *X, include_eval=inc)
         for name, impl, modb in (("function.jacobian.eval", J(V), got["jeval"]["blocks"]), ("function.jacobian.adj", J.adj(W), got["jadj"]["blocks"])):
             blocks = list(impl.arrays) if hasattr(impl, "arrays") else [impl]
